@@ -516,5 +516,30 @@ def noisyGate (mapE mapP : NoiseMapFor) (mapCtl : RegT → RegT → Option Noise
     | some (a :: _) => .ok [a]
     | _ => .ok [.none]
 
+
+/-- keys of a solver noise map (`noise_model_mapping[...]` of graphiq/solvers): the class name, or the class name with
+    the suffix `_control` / `_target` -/
+inductive MapKey where
+  | name (k : Kind)
+  | control (k : Kind)
+  | target (k : Kind)
+  deriving DecidableEq, Repr
+
+/-- `SolverBase._identify_noise(op, mapping)` **as coded**: an instance is first replaced by its class, after which
+    `isinstance(op, ControlledPairOperationBase)` is evaluated on a *class* and is always `False` — the `_control` / `_target`
+    branch is dead code, every operation gets `mapping[name]` or `NoNoise()` (the operation constructors then duplicate a
+    single noise for a controlled pair). -/
+def identifyNoise (k : Kind) (mapping : MapKey → Option NoiseM) : NoiseM :=
+  match mapping (.name k) with
+  | some n => n
+  | none => .none
+
+/-- `SolverBase._wrap_noise(op_list, mapping)`: the entry `"OneQubitGateWrapper"` if present (returned as it is), else the
+    list of the sub-operations' noises -/
+def wrapNoise (ops : List Kind) (wrapperEntry : Option (List NoiseM)) (mapping : MapKey → Option NoiseM) : List NoiseM :=
+  match wrapperEntry with
+  | some l => l
+  | none => ops.map fun k => identifyNoise k mapping
+
 end Noise
 end Graphiq
